@@ -19,8 +19,12 @@ import (
 
 type c19feed struct {
 	lookup *ssa.Lookup
-	call   *ssa.Call
+	call   *ssa.Call // the call of the table's function
 	fn     *ssa.Function
+	// the feed as seen by the record decoder: at == call, or - when lookup and call live in a helper
+	// of the package - the call of that helper, with the helper's parameters replaced by the arguments
+	at              *ssa.Call
+	dec, bytes, idx ssa.Value
 }
 
 func (c *c19) tableGlobal(ru *fw.Rule) *ssa.Global {
@@ -59,7 +63,11 @@ func (c *c19) feedSites(g *ssa.Global) (sites []c19feed, stray []ssa.Instruction
 				if fv != nil && fv.Referrers() != nil {
 					for _, r2 := range *fv.Referrers() {
 						if cl, ok := r2.(*ssa.Call); ok && cl.Common().Value == fv {
-							sites = append(sites, c19feed{lk, cl, fn})
+							if len(cl.Common().Args) == 2 {
+								sites = append(sites, c19feed{lookup: lk, call: cl, fn: fn, at: cl, dec: cl.Common().Args[0], bytes: cl.Common().Args[1], idx: lk.Index})
+							} else {
+								stray = append(stray, cl)
+							}
 							n++
 						}
 					}
@@ -69,6 +77,46 @@ func (c *c19) feedSites(g *ssa.Global) (sites []c19feed, stray []ssa.Instruction
 				}
 			}
 		})
+	}
+	// helper-transparent: a site inside a plain helper function is seen at the helper's callers
+	for round := 0; round < 2; round++ {
+		var lifted []c19feed
+		for _, st := range sites {
+			h := st.at.Parent()
+			usesParam := false
+			for _, v := range []ssa.Value{st.dec, st.bytes, st.idx} {
+				if pa, ok := c.origin(v).(*ssa.Parameter); ok && pa.Parent() == h {
+					usesParam = true
+				}
+			}
+			var callers []*ssa.Call
+			if usesParam && h.Parent() == nil {
+				for _, fn := range c.p.FqFunctions() {
+					fw.EachInstr(fn, func(ins ssa.Instruction) {
+						if cl, ok := ins.(*ssa.Call); ok && !cl.Common().IsInvoke() && cl.Common().StaticCallee() == h && len(cl.Common().Args) == len(h.Params) {
+							callers = append(callers, cl)
+						}
+					})
+				}
+			}
+			if len(callers) == 0 {
+				lifted = append(lifted, st)
+				continue
+			}
+			sub := func(v ssa.Value, cl *ssa.Call) ssa.Value {
+				if pa, ok := c.origin(v).(*ssa.Parameter); ok && pa.Parent() == h {
+					return cl.Common().Args[c19paramIndex(pa)]
+				}
+				return v
+			}
+			for _, cl := range callers {
+				n := st
+				n.at, n.fn = cl, cl.Parent()
+				n.dec, n.bytes, n.idx = sub(st.dec, cl), sub(st.bytes, cl), sub(st.idx, cl)
+				lifted = append(lifted, n)
+			}
+		}
+		sites = lifted
 	}
 	return
 }
@@ -126,7 +174,7 @@ func (c *c19) varValues(v ssa.Value) []ssa.Value {
 var c19inclLen = map[string]string{"incl_len": "pcap", "capture_packet_length": "pcapng"}
 
 func (c *c19) ruleFeed() {
-	ru := c.r.Rule("C19.feed", "every capture record is fed through the link type table with the capture's own link type (pcap: header 'network'; pcapng: the section's interface table, filled in order of appearance from 'link_type'), the bytes of the included length at the current position, and the capture's flow decoder; the call happens only for known link types", 12)
+	ru := c.r.Rule("C19.feed", "every capture record is fed through the link type table with the capture's own link type (pcap: header 'network'; pcapng: the section's interface table, filled in order of appearance from 'link_type'), the bytes of the included length at the current position, and the capture's flow decoder; the call happens for every record of a known link type and only for those; the bytes fed are exactly those of the record's packet field (same position, same length)", 15)
 	g := c.tableGlobal(ru)
 	if g == nil {
 		return
@@ -141,18 +189,18 @@ func (c *c19) ruleFeed() {
 	}
 	formats := map[string]bool{}
 	for _, s := range sites {
-		a := s.call.Common().Args
-		if len(a) != 2 {
-			ru.Undecided("feed:"+fw.ShortFn(s.fn), c.pos(s.call), "unexpected arity of the table call")
-			continue
-		}
+		a := []ssa.Value{s.dec, s.bytes}
 		// bytes
 		key := "feed:" + fw.ShortFn(s.fn)
 		lenName := ""
 		why := ""
+		var posCall *ssa.Call
+		var lenArg ssa.Value
 		if ra, ok := c.origin(a[1]).(*ssa.Call); ok && c19calleeName(ra.Common()) == "(*pkg/decode.D).ReadAllBits" {
 			if br, ok := c.origin(ra.Common().Args[1]).(*ssa.Call); ok && c19calleeName(br.Common()) == "(*pkg/decode.D).BitBufRange" {
 				ba := br.Common().Args
+				posCall, _ = c.origin(ba[1]).(*ssa.Call)
+				lenArg = ba[2]
 				if c.sig(ba[1]) != "(*pkg/decode.D).Pos(param#0)" || ba[0] != ra.Common().Args[0] {
 					why = "the range starts at " + c.sig(ba[1]) + ", expected the current position d.Pos()"
 				}
@@ -194,7 +242,7 @@ func (c *c19) ruleFeed() {
 			key = "feed:" + format
 			formats[format] = true
 		}
-		ru.Check(why == "", key+":bytes", c.pos(s.call), "bytes = ReadAllBits(BitBufRange(Pos(), 8*"+lenName+"))", why)
+		ru.Check(why == "", key+":bytes", c.pos(s.at), "bytes = ReadAllBits(BitBufRange(Pos(), 8*"+lenName+"))", why)
 		// only for known link types
 		okG := !s.lookup.CommaOk
 		if s.lookup.CommaOk {
@@ -208,10 +256,33 @@ func (c *c19) ruleFeed() {
 			okG = false
 		}
 		ru.Check(okG, key+":known-type", c.pos(s.call), "called only when the table has the link type", "the table's function is called without checking that the link type is present: unknown link types call a nil function")
+		if okG {
+			var rest []string
+			for _, cd := range c19structConds(s.call.Block()) {
+				if cd.v != extractOf2(s.lookup, 1) {
+					rest = append(rest, c.sig(cd.v))
+				}
+			}
+			if s.at != s.call {
+				for _, cd := range c19structConds(s.at.Block()) {
+					rest = append(rest, c.sig(cd.v))
+				}
+			}
+			okv := extractOf2(s.lookup, 1)
+			for _, x := range []*ssa.Call{s.call, s.at} {
+				if len(rest) == 0 && c19skippable(x, func(v ssa.Value) (bool, bool) { return true, v == okv }) {
+					rest = append(rest, "a condition in "+fw.ShortFn(x.Parent())+" (some path completes without feeding the record)")
+				}
+			}
+			ru.Check(len(rest) == 0, key+":every-record", c.pos(s.call), "every record of a known link type is fed", "feeding additionally depends on "+strings.Join(rest, " ; ")+": records for which it does not hold (truncated, ...) are withheld from the flow decoder and leave a hole or a lost connection")
+		}
+		if why == "" && posCall != nil {
+			c.feedAtPacket(ru, key, s, posCall, lenArg)
+		}
 		// decoder
 		dv := c.originTW(a[0])
 		dcall, isNew := dv.(*ssa.Call)
-		ru.Check(isNew && c19calleeName(dcall.Common()) == c19FD+".New", key+":decoder", c.pos(s.call), "decoder is the capture's flowsdecoder.New(...)", "the decoder argument is "+c.sig(a[0])+", expected the flow decoder created for this capture (a single write-once variable/field holding flowsdecoder.New(...))")
+		ru.Check(isNew && c19calleeName(dcall.Common()) == c19FD+".New", key+":decoder", c.pos(s.at), "decoder is the capture's flowsdecoder.New(...)", "the decoder argument is "+c.sig(a[0])+", expected the flow decoder created for this capture (a single write-once variable/field holding flowsdecoder.New(...))")
 		// link type
 		c.feedLinkType(ru, key, s)
 	}
@@ -221,7 +292,7 @@ func (c *c19) ruleFeed() {
 }
 
 func (c *c19) feedLinkType(ru *fw.Rule, key string, s c19feed) {
-	idx := s.lookup.Index
+	idx := s.idx
 	// style B: interface table of the section
 	if lk, ok := c.origin(idx).(*ssa.Lookup); ok {
 		u, isLoad := lk.X.(*ssa.UnOp)
@@ -230,11 +301,11 @@ func (c *c19) feedLinkType(ru *fw.Rule, key string, s c19feed) {
 			fa, _ = u.X.(*ssa.FieldAddr)
 		}
 		if fa == nil {
-			ru.Undecided(key+":linktype", c.pos(s.call), "link type comes from "+c.sig(idx))
+			ru.Undecided(key+":linktype", c.pos(s.at), "link type comes from "+c.sig(idx))
 			return
 		}
 		m, n, okR := c.fieldRead(lk.Index)
-		ru.Check(okR && m == "FieldU32" && n == "interface_id", key+":linktype", c.pos(s.call), "link type = section's interface table[interface_id]", "the interface table is indexed by "+c.sig(lk.Index)+", expected the packet block's interface_id")
+		ru.Check(okR && m == "FieldU32" && n == "interface_id", key+":linktype", c.pos(s.at), "link type = section's interface table[interface_id]", "the interface table is indexed by "+c.sig(lk.Index)+", expected the packet block's interface_id")
 		// the table is filled in order of appearance from link_type
 		nUpd := 0
 		for _, fn := range c.pcapFns {
@@ -282,7 +353,7 @@ func (c *c19) feedLinkType(ru *fw.Rule, key string, s c19feed) {
 			others = append(others, c.sig(v))
 		}
 	}
-	ru.Check(len(reads) == 1 && reads[0] == "FieldU32:network" && len(others) == 0, key+":linktype", c.pos(s.call), "link type = header field network",
+	ru.Check(len(reads) == 1 && reads[0] == "FieldU32:network" && len(others) == 0, key+":linktype", c.pos(s.at), "link type = header field network",
 		fmt.Sprintf("the link type used for dispatch comes from %v %v, expected the capture header's 32-bit network field", reads, others))
 }
 
@@ -340,7 +411,7 @@ func (c *c19) common(a, b ssa.Instruction) (ssa.Instruction, ssa.Instruction) {
 }
 
 func (c *c19) ruleSection() {
-	ru := c.r.Rule("C19.section", "one flow decoder per capture section: flowsdecoder.New runs inside a decode run, before and once per round of the work that feeds it (pcap: per file; pcapng: per section, with a fresh interface table); Flush comes after all feeding and before fieldFlows on the same decoder; the assembler is driven only by Assemble and the final FlushAll, with unlimited buffering", 12)
+	ru := c.r.Rule("C19.section", "one flow decoder per capture section: flowsdecoder.New runs inside a decode run, before and once per round of the work that feeds it (pcap: per file; pcapng: per section, with a fresh interface table); Flush comes after all feeding and before fieldFlows on the same decoder; the assembler is driven only by Assemble and the final FlushAll, with unlimited buffering and without gopacket's TCP option checker; an explicit pcapng section_length is counted in octets from the end of the Section Header Block, strictly", 16)
 	roots, _ := DecodeRoots(c.p)
 	isRoot := map[*ssa.Function]bool{}
 	for _, f := range roots {
@@ -369,12 +440,13 @@ func (c *c19) ruleSection() {
 	for _, n := range news {
 		top := fw.Top(n.Parent())
 		key := "decoder:" + fw.ShortFn(top)
+		c.noOptionCheck(ru, key, n)
 		ru.Check(isRoot[top], key+":per-run", c.pos(n), "created inside the decode run", "flowsdecoder.New is called in "+fw.ShortFn(n.Parent())+", which is not (nested in) a format's decode function: the decoder and its TCP/defragmentation state would outlive one capture")
 		// work that feeds this decoder
 		var work []ssa.Instruction
 		for _, s := range sites {
-			if c.originTW(s.call.Common().Args[0]) == ssa.Value(n) && fw.Top(s.fn) == top {
-				work = append(work, s.call)
+			if c.originTW(s.dec) == ssa.Value(n) && fw.Top(s.fn) == top {
+				work = append(work, s.at)
 			}
 		}
 		var maps []*ssa.Store // per-section tables living next to the decoder
@@ -522,6 +594,7 @@ func (c *c19) ruleSection() {
 	}
 	for nt := range ctxTypes {
 		c.sectionBoundary(ru, nt)
+		c.sectionLength(ru, nt)
 	}
 	// the assembler is only driven by Assemble (per packet) and FlushAll (at the end), with unlimited
 	// buffering: otherwise gopacket skips a hole in mid-capture and later in-order data (skip == 0)
@@ -571,7 +644,7 @@ func (c *c19) ruleSection() {
 // C19.flow
 
 func (c *c19) ruleFlow() {
-	ru := c.r.Rule("C19.flow", "fieldFlows exposes, for each recorded connection, client = the connection's Client record and server = its Server record (ip, port, has_start, has_end, skipped_bytes, stream = all bytes of its Buffer) with TCP_Stream_In ports (own, peer); ipv4_reassembled exposes each recorded datagram", 28)
+	ru := c.r.Rule("C19.flow", "fieldFlows exposes, for each recorded connection, client = the connection's Client record and server = its Server record (ip, port, has_start, has_end, skipped_bytes, stream = all bytes of its Buffer) with TCP_Stream_In ports (own, peer); every recorded connection is emitted (no filter); ipv4_reassembled exposes each recorded datagram", 30)
 	ff := getFn(ru, c.p, c19PCAP+".fieldFlows")
 	tdir := c.p.NamedType(c19FD, "TCPDirection")
 	tin := c.p.NamedType("format", "TCP_Stream_In")
@@ -708,6 +781,18 @@ func (c *c19) ruleFlow() {
 					names = append(names, n)
 				}
 			}
+			var sel []string
+			for _, up := range c.chain(cl) {
+				for _, cd := range c19structConds(up.Block()) {
+					if !c19isRangeCond(cd) {
+						sel = append(sel, c.sig(cd.v))
+					}
+				}
+				if len(sel) == 0 && c19skippable(up, func(v ssa.Value) (bool, bool) { return true, c19isRangeCond(c19cond{v, true}) }) {
+					sel = append(sel, "a condition in "+fw.ShortFn(up.Parent())+" (some path completes without emitting it)")
+				}
+			}
+			ru.Check(len(sel) == 0, key+":every-connection", c.pos(cl), "emitted for every recorded connection", "the "+side+" record is emitted only when "+strings.Join(sel, " ; ")+": connections for which it does not hold (empty payload ...) are missing from tcp_connections or lack this direction")
 			wantNames := strings.ToLower(side) + "/tcp_connection/tcp_connections"
 			ru.Check(strings.Join(names, "/") == wantNames, key+":path", c.pos(cl), "emitted under "+wantNames, "the "+side+" record is emitted under "+strings.Join(names, "/")+", expected "+wantNames)
 			// TCP_Stream_In literal
